@@ -22,7 +22,9 @@ CHECKS = {
           "1-2 schemes in quick, all 5 in thorough. HTTP: HttpRelay.tla transcribes handler/http/server.go (PublicRand, the two looks of getRand, the watch loop with "
           "skips/failures/reconnects, timeouts, LatestRand); TLC explores it exhaustively, its counterexamples and a transition tour of the complete labelled state graph are replayed on the real "
           "DrandHandler (scripted client over fabricated valid chains of all 5 schemes) and Trace_HttpRelay evaluates on every observed response that a 200 is exactly one verifying beacon of the "
-          "requested round with randomness = sha256(signature).",
+          "requested round with randomness = sha256(signature). gRPC PublicRand / PublicRandStream: PublicRand.tla tour on a real BeaconProcess. In-memory-store bootstrap: "
+          "MemBoot.tla (storeCurrentFromPeerNetwork: first usable answer, latest-round fallback, genesis for round 0, verify before Put) with the complete catalogue of peer answers "
+          "(9 kinds per peer and request, either arrival order, 3 schemes) run on the real code and judged by Trace_MemBoot.",
   "design_ref": "DESIGN.md 4 C01", "note": _TRUST, "technique": _TECH,
  },
  "C02": {
@@ -64,7 +66,9 @@ CHECKS = {
  },
  "C07": {
   "text": "Design: BeaconReshare.tla (which share epoch signs and counts around the transition round: asynchronous vault switch, one slot per signer in a round cache, restart loading the new group) "
-          "checked by TLC: OnlyNewShares / VaultFollowsChain exhaustively, liveness for a threshold-raising reshare, and the two named deviations as expected counterexamples. "
+          "checked by TLC: OnlyNewShares / VaultFollowsChain exhaustively, liveness for a threshold-raising reshare, and the two named deviations as expected counterexamples; "
+          "BeaconMembers.tla (membership-changing resharings: joiners running with the new share before the transition, leavers never told, shifted share indices; shapes add1/remove1/replace1/"
+          "replacefirst): safety in quick, liveness under weak fairness in thorough. "
           "Handler level with a fabricated resharing (same secret, fresh polynomial; shapes same/add/remove/replace/threshold-up): remaining members get TransitionNewGroup, joiners start in "
           "catch-up mode, leavers are stopped after the transition, as production does; " + _NET + ". Monitors: distributed key unchanged, C02 monitors across the transition round, "
           "partials made with old-epoch shares are not accepted after the switch, the new group keeps producing (NoProgress).",
@@ -204,7 +208,9 @@ CHECKS = {
   "text": "Exhaustive TLC exploration of PartialCache.tla (complete state graph on small constants) for the per-signer bound and no-cross-eviction, "
           "TLC simulation walks at the real constant replayed on the real partialCache, and TLC trace validation of every recorded call with the "
           "monitors evaluated on the observed state. Callback half (SyncServe.tla): Mon_PutNeverWaitsOnConsumer and Mon_OthersServed checked on the design (Q=2, stall faults, blocked AddCallback, bolt "
-          "re-map) and on real code at CallbackWorkerQueue=100 through TLC walks and free-running stalled-consumer and scan-stall runs; 'blocked' is established from goroutine dumps.",
+          "re-map) and on real code at CallbackWorkerQueue=100 through TLC walks and free-running stalled-consumer and scan-stall runs; 'blocked' is established from goroutine dumps. "
+          "Hand-over half (PartialHandover.tla): the blocking send of NewValidPartial bounds the verified partials parked in front of a busy aggregator; a real handler's aggregator is gated inside "
+          "its work and k valid partials are delivered through ProcessPartialBeacon: at most cap-buffered calls may return (Trace_PartialHandover).",
   "design_ref": "DESIGN.md 4 C12",
   "note": "Trusted: TLC, the projection of the Go maps to the abstract state (harness code in /verif/harness).",
   "technique": "TLA+ spec + TLC exhaustive model checking + trace validation of real-code executions",
